@@ -77,9 +77,28 @@ func newRun(prop string) *Run {
 
 func (r *Run) Thorough() bool { return r.Tier == "thorough" }
 
-// Pick returns q for the quick tier and t for the thorough tier.
+// quickScale multiplies the quick tier's case counts per property (never beyond the thorough tier's). The
+// first quick tiers were sized when every property still failed in its first cases; on the repaired tree
+// most of them ran for one to six seconds, which left the tier most often run the shallowest by far. The
+// factors bring each quick run to roughly 20-40 s of monitor time on an idle 16-core machine.
+var quickScale = map[string]int{
+	"C02": 6, "C03": 4, "C04": 8, "C05": 10, "C06": 6, "C07": 4, "C10": 6, "C11": 8,
+	"C13": 4, "C14": 10, "C15": 10, "C16": 5, "C20": 4,
+}
+
+// Pick returns q (times the property's quick scale) for the quick tier and t for the thorough tier.
 func (r *Run) Pick(q, t int) int {
 	if r.Thorough() {
+		return t
+	}
+	s := quickScale[r.Prop]
+	if a := r.Args["qscale"]; a != "" {
+		fmt.Sscan(a, &s)
+	}
+	if s > 1 && q*s <= t {
+		return q * s
+	}
+	if s > 1 && q < t {
 		return t
 	}
 	return q
